@@ -35,6 +35,12 @@ CHECKS = {
   text="All 4096 deleteWith graphs over three nodes (targets: the nodes and a dangling id; self-loops, cycles, chains, fans) x 7 variants (plain facts, a rule node, a property fact, an id spelled ?q, an expiring node deleted by a read, an overwritten dependent with stale index entries, an id spelled \"id\") x 9 sequences of one or two deletions x {indexed, linear under every iteration order of its fact map}; after each deletion GetFact, SearchFacts and the storage pairs must show exactly the reverse-reachability survivors. Non-termination (stack overflow) kills a worker and is attributed to its journaled case.",
   note="Deleting an id that is not live is unspecified and skipped. Quick tier subsamples non-default variants (every 4th graph) and linear map orders (2 of 6); thorough is complete.",
   design="2/C08"),
+ "C10": dict(
+  engine="SEQ",
+  technique="explicit-state model checking: exhaustive BFS over rule-lifecycle histories (add/overwrite/remove/disable/enable/reload/location toggle/expiry) under a virtual clock, lifecycle-automaton oracle",
+  text="BFS over AddRule(v1|v2|expiring) / RemRule / EnableRule / Reload / location disable+enable / clock past the expiry / ProcessEvent / trigger! sequences on {indexed, linear} x {rules local, rules inherited from a parent and toggled in the child}: one rule id to depth 6 (9 thorough), two ids to depth 4 (5). In every reached canonical state the plain event, a trigger! event per id, RuleEnabled and ListRules are compared with the lifecycle automaton (fires with the version last added iff present, unexpired, not disabled here, location enabled); in every disabled state 20 public Location operations must return the disabled error and leave the privileged snapshot (private state dump + storage) unchanged.",
+  note="EnableRule only on ids that hold a rule; flag semantics for a parent rule removed while flagged in the child are left unspecified until the next EnableRule; trigger! is only required not to fire suppressed/dead rules when the rule is inherited.",
+  design="2/C10"),
  "C05": dict(
   engine="GEN",
   technique="bounded-exhaustive enumeration of (pattern, datum, bindings) triples x owned map-iteration orders on the real matcher against an independent reference matcher",
